@@ -134,7 +134,7 @@ fn pref_s(r: &mut Rng, t: &Topo, allow_inherit: bool) -> String {
     let some_dc = |r: &mut Rng| -> u64 {
         if dcs.is_empty() || r.chance(1, 8) { *r.pick(&[0u64, 1, 2, ABSENT_DC]) } else { *r.pick(&dcs) }
     };
-    match r.below(if allow_inherit { 8 } else { 7 }) {
+    match r.below(if allow_inherit { 9 } else { 7 }) {
         0 | 1 => "a".into(),
         2 | 3 => format!("d{}", hex_u(some_dc(r) as u128)),
         4..=6 => {
@@ -189,8 +189,41 @@ fn main() {
         let nflags = if thorough { 6 } else { 3 };
         let npol = if thorough { 8 } else { 5 };
         let nreq = if thorough { 6 } else { 4 };
-        for _ in 0..nflags {
-            let fl = gen_flags(&mut r, topo.nodes.len());
+        let n = topo.nodes.len();
+        let mut flag_sets: Vec<String> = (0..nflags).map(|_| gen_flags(&mut r, n)).collect();
+        // every {enabled+connected, enabled, disabled} assignment for small clusters
+        let exhaustive = n <= if thorough { 4 } else { 3 };
+        if exhaustive {
+            flag_sets.clear();
+            for mut code in 0..3usize.pow(n as u32) {
+                let mut f = String::new();
+                for _ in 0..n {
+                    f.push(['c', 'e', 'd'][code % 3]);
+                    code /= 3;
+                }
+                flag_sets.push(f);
+            }
+        }
+        let (npol, nreq) = if exhaustive { (2, 2) } else { (npol, nreq) };
+        let emit = |r: &mut Rng, fl: &str, pol: &str, out: &mut Out, cx: &mut Ctx| {
+            let tok = if r.chance(1, 8) { "_".to_string() } else { hex_i(*r.pick(&pts) as i128) };
+            let ks = match r.below(10) {
+                0 => "_".to_string(),
+                1 => "u".to_string(),
+                _ => hex_u(r.below(nks as u64) as u128),
+            };
+            let lwt = match r.below(8) {
+                0..=3 => 0,
+                4 | 5 => 1,
+                6 => 2,
+                _ => 3,
+            };
+            let req = format!("{}/{}/{}/{}", tok, ks, lwt, pref_s(r, &topo, false));
+            let c = format!("P {} {} {} {} {} {}", ns, rs, ksss, fl, pol, req);
+            let o = run_case(cx, &c);
+            out.case(&c, &o);
+        };
+        for fl in &flag_sets {
             for _ in 0..npol {
                 let pol = format!(
                     "{}/{}/{}/{}",
@@ -200,22 +233,41 @@ fn main() {
                     r.below(2)
                 );
                 for _ in 0..nreq {
-                    let tok = if r.chance(1, 8) { "_".to_string() } else { hex_i(*r.pick(&pts) as i128) };
-                    let ks = match r.below(10) {
-                        0 => "_".to_string(),
-                        1 => "u".to_string(),
-                        _ => hex_u(r.below(nks as u64) as u128),
-                    };
-                    let lwt = match r.below(8) {
-                        0..=3 => 0,
-                        4 | 5 => 1,
-                        6 => 2,
-                        _ => 3,
-                    };
-                    let req = format!("{}/{}/{}/{}", tok, ks, lwt, pref_s(&mut r, &topo, false));
-                    let c = format!("P {} {} {} {} {} {}", ns, rs, ksss, fl, pol, req);
-                    let o = run_case(&mut cx, &c);
-                    out.case(&c, &o);
+                    emit(&mut r, fl, &pol, &mut out, &mut cx);
+                }
+            }
+        }
+        // directed: a preferred datacenter whose nodes are all down (at least one of them still
+        // enabled) while remote nodes are connected, with and without failover, with and without rack
+        let dcs = ring_dcs(&topo);
+        if dcs.len() >= 2 {
+            let d = *r.pick(&dcs);
+            let mut one_enabled = false;
+            let fl: String = topo
+                .nodes
+                .iter()
+                .map(|nd| {
+                    if nd.1 == Some(d) {
+                        if !one_enabled || r.bool() {
+                            one_enabled = true;
+                            'e'
+                        } else {
+                            'd'
+                        }
+                    } else if r.chance(1, 6) {
+                        'e'
+                    } else {
+                        'c'
+                    }
+                })
+                .collect();
+            let rack = topo.nodes.iter().find(|nd| nd.1 == Some(d)).and_then(|nd| nd.2).unwrap_or(0);
+            for pref in [format!("d{}", hex_u(d as u128)), format!("r{}.{}", hex_u(d as u128), hex_u(rack as u128))] {
+                for fo in [1, 0] {
+                    let pol = format!("{}/{}/{}/{}", pref, if r.chance(3, 4) { 1 } else { 0 }, fo, r.below(2));
+                    for _ in 0..2 {
+                        emit(&mut r, &fl, &pol, &mut out, &mut cx);
+                    }
                 }
             }
         }
